@@ -40,3 +40,22 @@ Print Assumptions C14_reads_unblocked.
 Theorem C14_source_removes_file_on_failure : transact_failure_removes_file = true.
 Proof. exact bridge_transact_failure_removes_file. Qed.
 Print Assumptions C14_source_removes_file_on_failure.
+
+From DC Require Import Val DiskBase Gen_Disk Disk FanoutBase Gen_Fanout Fanout FanoutFacts FanoutTimeoutFacts.
+
+(* FanoutCache (and DjangoCache, which delegates to it) data operations never raise Timeout: finite case
+   analysis over the delegation table regenerated from fanout.py *)
+Theorem C14_fanout_never_raises_timeout :
+  forall m d, In (m, d) fanout_table ->
+    (exists r, documented_on_timeout m = Some r /\ raised_res d ETimeout = r /\ r <> RRaise ETimeout /\
+               forall C ceqb cls hashf n env st, 0 < n -> length st = Z.to_nat n ->
+                 fan_keyed C ceqb cls hashf d n env (Raised ETimeout) st = (st, r))
+    \/ (documented_on_timeout m = None /\ never_times_out m = true /\ fd_retry d = None /\ fd_catch d = []).
+Proof. exact C14_fanout_total. Qed.
+Print Assumptions C14_fanout_never_raises_timeout.
+
+(* bulk removals through FanoutCache resume after a Timeout and add every partial count *)
+Theorem C14_fanout_remove_resumes : forall (partials : list Z) (last : Z),
+  remove_attempts (map (fun c => (c, true)) partials ++ [(last, false)]) = (sumZ partials + last, true).
+Proof. exact remove_resumes_after_timeout. Qed.
+Print Assumptions C14_fanout_remove_resumes.
